@@ -82,8 +82,34 @@ pub struct Config {
     xfoo: bool,
 }
 
+/// A neighbour file that uses every feature of the header (imports of the same simple names,
+/// forward declarations, resolved and unresolved references): whatever a pass remembers from it
+/// must not reach the observed file when the neighbour happens to be processed first.
+fn neighbour() -> ProjFile {
+    let mut item = Item::new(ItemKind::Interface, "Neighbour");
+    item.members.push(Member::Method(Method::new(
+        leaf("Foo"),
+        "n",
+        vec![
+            Arg::new(Some("in"), leaf("XFoo"), Some("a")),
+            Arg::new(Some("in"), leaf("Bar"), Some("b")),
+            Arg::new(Some("in"), leaf("IBinder"), Some("c")),
+            Arg::new(Some("in"), leaf("Info"), Some("d")),
+            Arg::new(Some("in"), leaf("Uri"), Some("e")),
+        ],
+    )));
+    let mut d = Document::new("nb", item);
+    for i in ["zz.Foo", "zz.XFoo", "zz.IBinder", "zz.Info", "zz.TaskList", "zz.A"] {
+        d.imports.push(Import::new(i));
+    }
+    for n in ["Bar", "Uri", "StringList"] {
+        d.decls.push(Decl::new(n));
+    }
+    ProjFile::from_doc("neighbour", d)
+}
+
 fn support_files(c: &Config) -> Vec<ProjFile> {
-    let mut v = Vec::new();
+    let mut v = vec![neighbour()];
     if c.alpha == 1 {
         // every import of the alphabet is an item of the project (kinds rotate), or none is
         if c.foo_kind > 0 {
